@@ -44,6 +44,7 @@ type Script struct {
 	PlainErr bool
 	Release  string // "", "early", "twice", "helper", "late" (after the gate, before returning)
 	Stream   []StreamStep
+	EndGate  chan struct{} // stream handlers: waited for after the last step, before the handler ends
 	StreamErr bool // stream handler ends with the Fail status instead of nil
 
 	Entered chan struct{} // closed at handler entry
@@ -319,6 +320,9 @@ func (p *Server) stream(ctx gorums.ServerCtx, method, val string, send func(int6
 			s.SendErrs++
 			return err
 		}
+	}
+	if err := p.wait(ctx, s.EndGate); err != nil {
+		return err
 	}
 	p.release(&ctx, s, method, "late")
 	switch s.Action {
